@@ -1197,3 +1197,7 @@ c06 = c05
 
 
 c07 = c05
+
+
+c13 = c05
+c11 = c05
